@@ -357,7 +357,16 @@ func (gp *GenginePool) UpdatePooledRulesIncremental(ruleStr string) error {
 	}
 
 	//update main
-	updateIncremental(kci, gp.ruleBuilder)
+	if gp.ruleBuilder == nil {
+		//rules have been cleared: there is nothing to merge with, the new rules are the whole rule set
+		rbi, e := makeRuleBuilder(ruleStr, gp.apis)
+		if e != nil {
+			return e
+		}
+		gp.ruleBuilder = rbi
+	} else {
+		updateIncremental(kci, gp.ruleBuilder)
+	}
 
 	//update instance
 	for i := 0; i < int(gp.max); i++ {
@@ -383,6 +392,10 @@ func (gp *GenginePool) ClearPoolRules() {
 func (gp *GenginePool) RemoveRules(ruleNames []string) error {
 	gp.updateLock.Lock()
 	defer gp.updateLock.Unlock()
+
+	if gp.clear || gp.ruleBuilder == nil {
+		return errors.New("no rules in pool! ")
+	}
 
 	e := gp.ruleBuilder.RemoveRules(ruleNames)
 	if e != nil {
